@@ -97,6 +97,7 @@ pub struct Profile {
     pub pre_open_pct: u32,
     pub shape: Shape,
     pub sched_bytes: usize,
+    pub keep_going_after_early_destroy: bool,
 }
 
 impl Default for Profile {
@@ -120,6 +121,7 @@ impl Default for Profile {
             pre_open_pct: 20,
             shape: Shape::Plain,
             sched_bytes: 300,
+            keep_going_after_early_destroy: false,
         }
     }
 }
@@ -217,6 +219,7 @@ pub fn sched_strategy(bytes: usize) -> BoxedStrategy<Sched> {
 }
 
 pub fn cfg_strategy(p: &Profile) -> BoxedStrategy<Cfg> {
+    let keep_going = p.keep_going_after_early_destroy;
     (
         (p.pool.0..=p.pool.1, p.objects.0..=p.objects.1, p.gates.0..=p.gates.1, p.streams.0..=p.streams.1),
         pct(p.queue_level_pct),
@@ -227,7 +230,7 @@ pub fn cfg_strategy(p: &Profile) -> BoxedStrategy<Cfg> {
         pct(p.double_wake_pct),
         pct(40),
     )
-        .prop_map(|((pool, objects, gates, streams), q, unlock_points, (sp, spv), (po, pov), root_holds, double_wake, gate_keep_all)| Cfg {
+        .prop_map(move |((pool, objects, gates, streams), q, unlock_points, (sp, spv), (po, pov), root_holds, double_wake, gate_keep_all)| Cfg {
             pool,
             objects,
             gates,
@@ -239,6 +242,8 @@ pub fn cfg_strategy(p: &Profile) -> BoxedStrategy<Cfg> {
             root_holds,
             double_wake,
             gate_keep_all,
+            keep_going_after_early_destroy: keep_going,
+            despawn_without_quiescence: false,
         })
         .boxed()
 }
